@@ -153,7 +153,6 @@ impl Search {
         // Uses a heuristic to determine the maximum time to spend on a move
         #[cfg(rce_verif)]
         verif::schedule_point("SEARCH_ENTRY");
-        self.start();
         #[cfg(rce_verif)]
         verif::schedule_point("SEARCH_ARMED");
 
@@ -848,6 +847,7 @@ impl Search {
     /// search.start();
     /// assert_eq!(search.is_running(), true);
     /// ```
+    #[allow(dead_code)]
     fn start(&self) {
         self.running.store(true, Ordering::Relaxed);
     }
